@@ -95,6 +95,16 @@ def run(chk, orch):
                 a = {"workloads": wl_, "steps": st_}
                 orch.submit(0, "scenarios:cache_session", a, tag=("h", 1000 + ti), timeout=180)
                 hist[1000 + ti] = a
+        # ---------------- F: reuse of an output folder that holds another unpacked reference of the same name
+        nf = 2 if quick else 6
+        freuse = {}
+        for k in range(nf):
+            spec = workload.random_spec(chk.rng, "tiny" if k % 2 else "small")
+            spec["n_exp"] = 1
+            cell = common.random_cell(chk.rng)
+            a = {"spec": spec, "opts": common.cell_opts({"annotated": True}, cell), "sched": cell["sched"]}
+            orch.submit(cell["hashseed"], "scenarios:folder_reuse", a, tag=("f", k))
+            freuse[k] = (a, cell)
         # BAM merger machine
         nmm = 4 if quick else 16
         for k in range(nmm):
@@ -163,6 +173,27 @@ def run(chk, orch):
                 f = r["fail"]
                 chk.violation("P:merge", {"kind": f["problems"][0][0]}, f["problems"][0][1],
                               {"engine": "machine:c12", "oracle": "module:checks.c12", "kind": "MM", "case": f["case"], "hashseed": tag[2]})
+        for k, (a, cell) in freuse.items():
+            r = res.get(("f", k))
+            if r is None:
+                continue
+            chk.runs += 3
+            chk.events_simulated += r.get("events", 0)
+            if r["fresh"]["exit"] != 0:
+                chk.probes["reference_failed_skipped"] += 1
+                continue
+            chk.evaluations += 1
+            chk.distinct.add("F" + json.dumps([rounds, k, a["spec"]["seed"]]))
+            chk.faults["output_folder_reused_after_reference_changed"] += 1
+            d2, d3 = r["second"]["digests"], r["fresh"]["digests"]
+            bad = sorted(x for x in set(d2) | set(d3) if d2.get(x) != d3.get(x))
+            if r["second"]["exit"] != 0:
+                bad = ["<exit %s>" % r["second"]["exit"]]
+            if bad:
+                chk.violation("F:folder", {"files": ",".join(sorted(set(common.file_class(b) for b in bad)))[:200]},
+                              "plain-gzip reference in a reused output folder (which holds the unpacked copy of ANOTHER reference of "
+                              "the same name) gives different outputs than the plain FASTA in a fresh folder: %s" % bad[:6],
+                              {"engine": "pipeline", "oracle": "module:checks.c12", "kind": "F", "args": a, "hashseed": cell["hashseed"]})
         # judge H
         for k, a in hist.items():
             r = res.get(("h", k))
@@ -269,6 +300,14 @@ def replay(doc, orch):
             return False, "harness: %s" % r.get("err")
         probs = r["res"]["problems"]
         return bool(probs), "\n".join("%s: %s" % (k, t) for k, t in probs) + "\ncase: " + json.dumps(doc["case"])
+    if doc.get("kind") == "F":
+        jid = orch.submit(doc["hashseed"], "scenarios:folder_reuse", doc["args"])
+        r = orch.run_all()[jid][1]
+        if not r.get("ok"):
+            return False, "harness: %s" % r.get("err")
+        d2, d3 = r["res"]["second"]["digests"], r["res"]["fresh"]["digests"]
+        bad = sorted(x for x in set(d2) | set(d3) if d2.get(x) != d3.get(x))
+        return bool(bad) or r["res"]["second"]["exit"] != 0, "differs: %s" % bad
     if doc.get("kind") == "P":
         i1 = orch.submit(doc["golden"]["hashseed"], doc["golden"]["fn"], doc["golden"]["args"])
         i2 = orch.submit(doc["run"]["hashseed"], doc["run"]["fn"], doc["run"]["args"])
